@@ -60,8 +60,11 @@ class Subframe:
             raise sc.DimensionError(
                 f'Inconsistent dims or shape: {time.sizes} vs {wavelength.sizes}'
             )
-        self.time = time.to(unit='s', copy=False)
-        self.wavelength = wavelength.to(unit='angstrom', copy=False)
+        # Convert as float: integers would be rounded to whole seconds / angstrom.
+        self.time = time.to(unit='s', dtype='float64', copy=False)
+        self.wavelength = wavelength.to(
+            unit='angstrom', dtype='float64', copy=False
+        )
 
     def __eq__(self, other: object) -> bool:
         if not isinstance(other, Subframe):
@@ -186,7 +189,10 @@ class Frame:
         :
             Propagated frame.
         """
-        delta = distance.to(unit=self.distance.unit, copy=False) - self.distance
+        delta = (
+            distance.to(unit=self.distance.unit, dtype='float64', copy=False)
+            - self.distance
+        )
         subframes = [subframe.propagate_by(delta) for subframe in self.subframes]
         return Frame(distance=distance, subframes=subframes)
 
@@ -213,7 +219,9 @@ class Frame:
         :
             Chopped frame.
         """
-        distance = chopper.distance.to(unit=self.distance.unit, copy=False)
+        distance = chopper.distance.to(
+            unit=self.distance.unit, dtype='float64', copy=False
+        )
         if distance < self.distance:
             raise ValueError(
                 f'Chopper distance {distance} is smaller than frame distance '
@@ -305,12 +313,12 @@ class FrameSequence:
         The distance is set to 0 m.
         """
         time = sc.concat([time_min, time_max, time_max, time_min], dim='vertex').to(
-            unit='s'
+            unit='s', dtype='float64'
         )
         wavelength = sc.concat(
             [wavelength_min, wavelength_min, wavelength_max, wavelength_max],
             dim='vertex',
-        ).to(unit='angstrom')
+        ).to(unit='angstrom', dtype='float64')
         frames = [
             Frame(
                 distance=sc.scalar(0, unit='m'),
@@ -327,7 +335,7 @@ class FrameSequence:
         """Get a frame by index or distance."""
         if isinstance(item, int):
             return self.frames[item]
-        distance = item.to(unit='m')
+        distance = item.to(unit='m', dtype='float64')
         frame_before_detector = None
         for frame in self:
             if frame.distance > distance:
